@@ -609,7 +609,7 @@ impl Property for C09 {
             .boxed()
     }
     fn cases(&self, tier: Tier) -> u32 {
-        tier.pick(2_500, 80_000)
+        tier.pick(8_000, 80_000)
     }
     fn level(&self) -> &'static str {
         "exploration"
